@@ -12,6 +12,7 @@ package appcore
 // received ones, except a final stop message).
 //@ func (*AppCore).HandleMessagesUntilEOF
 //@ requires appCore != nil && reader != nil && appCore.Config != nil
+//@ requires[C13,C09] appCore.Config.TimeoutOnEOFMilliSeconds <= 1<<40 && appCore.Config.WaitTimeOnEOFMilliseconds <= 1<<40
 //@ requires[C09] forall(i, 0, len(appCore.Channels), forall(j, 0, len(appCore.Channels), i != j && appCore.Channels[i] != nil ==> appCore.Channels[i] != appCore.Channels[j]))
 //@ requires forall(i, 0, len(appCore.Channels), appCore.Channels[i] != nil ==> !closed(appCore.Channels[i]) && allocated(appCore.Channels[i]))
 //@ modifies sentall(appCore.Channels)
